@@ -6,9 +6,10 @@
  *  - user aio wait queue recvq: ghost count + the first two members; when the
  *    head leaves, the second becomes head and the new second is an unknown
  *    non-NULL aio (never looked into by the functions under contract);
- *  - frame queues rxq/txq: ghost arrays holding ALL members in order (at most
- *    WSF_K; an append/prepend beyond that is a failing obligation, not an
- *    assumption);
+ *  - reassembly queue rxq: ghost array holding ALL members in order (at most
+ *    WSF_K; an append beyond that is a failing obligation, not an assumption);
+ *  - transmit queue txq: ghost count + first member + the one behind it (when
+ *    known); no capacity limit;
  *  - completions, aio close/reset/start, nni_random: recorded;
  *  - messages: heap objects (struct nng_msg of ghost.h), allocation may fail. */
 #ifndef VP_WSFRAME_ENV_H
@@ -33,14 +34,17 @@ vp_aioq_pop(vp_aioq *q)
 static vp_frameq *
 vp_fq(const nni_list *l)
 {
-	__CPROVER_assert(l == g_rxq_addr || l == g_txq_addr, "list: a frame queue of this model");
-	return (l == g_rxq_addr ? &g_rxq : &g_txq);
+	__CPROVER_assert(l == g_rxq_addr, "list: the reassembly queue of this model");
+	return (&g_rxq);
 }
 void *
 nni_list_first(const nni_list *l)
 {
 	if (l == g_recvq_addr) {
 		return (g_recvq.n ? g_recvq.head : NULL);
+	}
+	if (l == g_txq_addr) {
+		return (g_txq.n ? g_txq.head : NULL);
 	}
 	vp_frameq *q = vp_fq(l);
 	return (q->n ? q->item[0] : NULL);
@@ -65,13 +69,25 @@ nni_list_empty(nni_list *l)
 	if (l == g_recvq_addr) {
 		return (g_recvq.n == 0);
 	}
+	if (l == g_txq_addr) {
+		return (g_txq.n == 0);
+	}
 	return (vp_fq(l)->n == 0);
 }
 void
 nni_list_append(nni_list *l, void *it)
 {
-	vp_frameq *q = vp_fq(l);
 	__CPROVER_assert(it != NULL, "list_append: item is not NULL");
+	if (l == g_txq_addr) {
+		if (g_txq.n == 0) {
+			g_txq.head = it;
+		} else if (g_txq.n == 1) {
+			g_txq.next = it;
+		}
+		g_txq.n++;
+		return;
+	}
+	vp_frameq *q = vp_fq(l);
 	__CPROVER_assert(q->n < WSF_K, "frame queue model capacity (WSF_K) not exceeded");
 	__CPROVER_assert(!(q->n >= 1 && it == q->item[0]) && !(q->n >= 2 && it == q->item[1]), "list_append: item is not already a member");
 	q->item[q->n] = it;
@@ -80,18 +96,28 @@ nni_list_append(nni_list *l, void *it)
 void
 nni_list_prepend(nni_list *l, void *it)
 {
-	vp_frameq *q = vp_fq(l);
 	__CPROVER_assert(it != NULL, "list_prepend: item is not NULL");
-	__CPROVER_assert(q->n < WSF_K, "frame queue model capacity (WSF_K) not exceeded");
-	__CPROVER_assert(!(q->n >= 1 && it == q->item[0]) && !(q->n >= 2 && it == q->item[1]), "list_prepend: item is not already a member");
-	q->item[2] = q->item[1];
-	q->item[1] = q->item[0];
-	q->item[0] = it;
-	q->n++;
+	__CPROVER_assert(l == g_txq_addr, "list_prepend: the transmit queue");
+	g_txq.next = g_txq.n ? g_txq.head : NULL;
+	g_txq.head = it;
+	g_txq.n++;
 }
 void
 nni_list_remove(nni_list *l, void *it)
 {
+	if (l == g_txq_addr) {
+		__CPROVER_assert(g_txq.n > 0 && it == g_txq.head, "list_remove: item is the head of the transmit queue");
+		g_txq.n--;
+		g_txq.head = g_txq.next;
+		g_txq.next = NULL;
+		if (g_txq.n >= 1 && g_txq.head == NULL) {
+			/* identity unknown to the model: some frame */
+			struct ws_frame *x = nondet_ptr();
+			__CPROVER_assume(x != NULL);
+			g_txq.head = x;
+		}
+		return;
+	}
 	vp_frameq *q = vp_fq(l);
 	__CPROVER_assert(q->n <= WSF_K, "frame queue within model capacity");
 	if (q->n >= 1 && it == q->item[0]) {
@@ -131,9 +157,9 @@ void nni_aio_reset(nni_aio *aio) { (void) aio; g_aio_reset_calls++; }
 bool nni_aio_start(nni_aio *aio, nni_aio_cancel_fn fn, void *arg) { (void) aio; (void) fn; (void) arg; g_start_calls++; return (g_aio_start_ok); }
 
 /* ---- HTTP connection --------------------------------------------------- */
-void nni_http_read_full(nni_http_conn *c, nng_aio *aio) { g_rd_calls++; g_io_http = c; g_rd_aio = aio; }
-void nni_http_write_full(nni_http_conn *c, nng_aio *aio) { g_wr_calls++; g_io_http = c; g_wr_aio = aio; }
-void nni_http_conn_close(nng_http *c) { g_hclose_calls++; g_io_http = c; }
+void nni_http_read_full(nni_http_conn *c, nng_aio *aio) { g_rd_calls++; g_rd_http = c; g_rd_aio = aio; }
+void nni_http_write_full(nni_http_conn *c, nng_aio *aio) { g_wr_calls++; g_wr_http = c; g_wr_aio = aio; }
+void nni_http_conn_close(nng_http *c) { g_hclose_calls++; g_wr_http = c; }
 
 /* ---- random ------------------------------------------------------------ */
 uint32_t
